@@ -44,6 +44,13 @@ def run_mgr(ctx, prop):
     trace = ctx.sc.path("mgr.ndjson")
     res = harness(ctx, vh, ["mgr", "--cases", p, "--seed", str(ctx.seed), "--trace", trace], timeout=3400)
     failures = list(res["failures"])
+    if any(f["finding"] == "crash-in-simpleiot" for f in failures):
+        # the code under test panicked in a goroutine of its own while the schedules were run: there is no
+        # trace to validate, the crash is the outcome (C07: clients are stopped and the manager returns)
+        cov = {"states": states, "transitions": trans, "role1": detail, "traces_validated_against_impl": 0,
+               "evaluations": res["evaluations"], "distinct_nontrivial": res["distinct_nontrivial"],
+               "samples": res["samples"], "extra": {"trace_events": 0, "traces_accepted": 0}}
+        return cov, [f for f in failures if prop == "C07"]
     # role 3: trace validation, one schedule at a time after the first rejection so that every
     # schedule gets a verdict
     starts = res["extra"]["trace_starts"]
